@@ -70,6 +70,9 @@ def gen_wire():
     tm = [e for e in sorted(errno.errorcode) if isinstance(OSError(e, "x"), socket.timeout)]
     L += ["", "/-- errnos `e` for which `OSError(e, ..)` is an instance of `socket.timeout` on the running interpreter -/",
           "def timeoutErrnos : List Nat := " + lean_list([str(e) for e in tm], 16)]
+    L += ["", "/-- `errno.EBADF` (the one errno `SocketStream.fileno` turns into EOFError) and `errno.EINTR` (the one",
+          "select error `Stream.poll` retries on) -/",
+          "def ebadf : Nat := %d" % errno.EBADF, "def eintr : Nat := %d" % errno.EINTR]
     # are timeout / would-block exceptions `socket.error`s (so that `write` treats them as fatal) and
     # EnvironmentErrors (so that PipeStream treats them as fatal)
     facts = dict(
